@@ -10,6 +10,7 @@ import ast
 from ..flow import CallGraph, self_stores, param_inplace, alias_closure, inplace_sinks, returns_alias
 from ..repo import AnalysisError, dotted, norm_text, walk_no_nested
 from ..intervals import range_at
+from ..alg import Rat
 
 BEH = "EasyFEA.Models.InElastic._behavior.Behavior"
 SIM = "EasyFEA.Simulations._inelastic.InElastic"
@@ -35,6 +36,8 @@ def run(ctx):
     ctx.attempt(multiplier_column_rule, ctx)
     ctx.attempt(flow_step_rule, ctx)
     ctx.attempt(spectral_dispatch_rule, ctx)
+    ctx.attempt(plane_stress_linearity_rule, ctx)
+    ctx.attempt(local_jacobian_rule, ctx)
     ctx.attempt(reducibility_rule, ctx)
     from ..shared import commit_idempotent_rule as _commit_idempotent_rule
 
@@ -1077,3 +1080,194 @@ def reducibility_rule(ctx, rid="R19.20"):
                             r.ok(f"{label}: reducible = {bool(red)}, slots {keys}")
     if not n_red[0]:
         raise AnalysisError(f"{rid}: no configuration is reducible in the model (the plain quadratic surface must be)")
+
+
+def plane_stress_linearity_rule(ctx, rid="R19.21"):
+    """'a material without internal variables is exactly linear elastic' / 'plane stress leaves no out-of-plane stress':
+    the plane-stress completion `Behavior.__Plane_stress_strain` is interpreted in exact arithmetic for an elastic response
+    (sig = C eps with a rational isotropic C, the inner integration replaced by that response) at strains of very
+    different magnitudes, s (1, 1/2, 1/5) with s = 1, 1e-6, 1e-12: the out-of-plane strain it returns must be the linear
+    one, eps_zz = -(C_zx eps_x + C_zy eps_y) / C_zz - an ABSOLUTE stress tolerance tested before the first correction
+    leaves eps_zz = 0 (the plane-strain stress, 29 % off) as soon as the strains are small."""
+    from types import SimpleNamespace
+    from fractions import Fraction as Q
+
+    from ..alg import Poly, is_zero
+    from ..xarray import XArray
+    from ..xeval import Interp, XObj, Opaque, XRaise
+    from ..femchain import XFe, fe_hook_full
+    from ..repo import FuncInfo
+
+    repo = ctx.repo
+    ci = repo.cls(BEH)
+    f = repo.lookup_method(ci, ci.mangle("__Plane_stress_strain"))
+    r = ctx.rule(rid, "plane-stress completion on an elastic response: eps_zz == -(C_zx eps_x + C_zy eps_y) / C_zz exactly, for strains of magnitude 1, 1e-6 and 1e-12 (no absolute stress tolerance decides before the first correction)", min_instances=3)
+    # isotropic C in Kelvin-Mandel form with lambda = 3, mu = 2 (units of 1e4: a steel-like modulus makes the floor visible)
+    lam, mu = Q(30000), Q(20000)
+    C = [[Q(0)] * 6 for _ in range(6)]
+    for i in range(3):
+        for j in range(3):
+            C[i][j] = lam + (2 * mu if i == j else 0)
+    for i in range(3, 6):
+        C[i][i] = 2 * mu
+    CX = XArray((6, 6), [C[i][j] for i in range(6) for j in range(6)])
+    cattr = {k: repo.class_attr(ci, k)[0] for k in ("_tol", "_planeStress_tol", "_maxIter")}
+    for s in (Q(1), Q(1, 10**6), Q(1, 10**12)):
+        r.instance(fn=f.qualname)
+        eps = [s, s / 2, Q(0), Q(0), Q(0), s / 5]
+        eps6 = XFe((1, 1, 6), list(eps))
+
+        def hook(fn, args, kwargs):
+            fi = fn if isinstance(fn, FuncInfo) else getattr(fn, "finfo", None)
+            if fi is not None and fi.name.endswith("__Integrate_3d"):
+                e6 = XArray.from_nested(args[0])
+                sig = [sum((C[i][j] * e6[0, 0, j] for j in range(6)), Q(0)) for i in range(6)]
+                return (XFe((1, 1, 6), sig), XFe((1, 1, 6, 6), list(CX.data)), None, None)
+            return fe_hook_full(fn, args, kwargs)
+
+        I = Interp(repo)
+        I.call_hook = hook
+        obj = XObj(ci, {ci.mangle("__yield"): None, "C": CX})
+        try:
+            out = XArray.from_nested(I.call_function(f, [eps6, Opaque("zOld"), Q(0)], self_obj=obj))
+        except XRaise as e:
+            r.fail(f.qualname, f"plane-stress-linear:{s}", f.file, f.lineno, "Behavior.__Plane_stress_strain", f"strain magnitude {float(s):g}: raises {e}")
+            continue
+        want = -(C[2][0] * eps[0] + C[2][1] * eps[1]) / C[2][2]
+        got = out[0, 0, 2]
+        got = got.const_value() if isinstance(got, Poly) and got.is_const() else got
+        if is_zero(Poly.of(got) - want) or (isinstance(got, Q) and want != 0 and abs((got - want) / want) < Q(1, 10**9)):
+            r.ok(f"strain magnitude {float(s):g}: eps_zz is the linear one")
+        else:
+            r.fail(f.qualname, "plane-stress-linear", f.file, f.lineno, "Behavior.__Plane_stress_strain", f"elastic response, in-plane strain {float(s):g} * (1, 1/2, 1/5): eps_zz = {float(got) if isinstance(got, (int, Q)) else got!r} instead of {float(want):g}: the convergence test on an absolute stress accepts the starting value eps_zz = 0, the stress returned is the plane-strain one (sig_zz != 0 relative to the stress level, in-plane stress 29 % off): a material without internal variables is not linear elastic at small strains")
+
+
+def local_jacobian_rule(ctx, rid="R19.22"):
+    """'the returned algorithmic tangent is the derivative of the returned stress with respect to the strain': the tangent
+    is built from the local Jacobian pair (J, D) = (dr/du, dr/deps) (R19.18); here the pair itself is decided.
+    `Behavior.__Residual` and `Behavior.__Jacobian` are interpreted on ONE symbolic point of a material carrying every
+    mechanism at once - plastic strain, accumulated plastic strain, one kinematic component with recall, one Maxwell
+    branch - with polynomial stand-ins for the constitutive pieces (a quadratic surface f = 1/2 xi.P.xi - R - s_y, so
+    N = P xi, dN/dsig = P; linear hardening R = H p; back-stress X = k alpha), a rational isotropic C and symbolic strain,
+    state, increment, dt, g, tau, k, recall, H.  Every entry of J must be the polynomial derivative of the residual row
+    with respect to the unknown, every entry of D the derivative with respect to the strain component."""
+    from types import SimpleNamespace
+    from fractions import Fraction as Q
+
+    from ..alg import Poly, is_zero
+    from ..xarray import XArray
+    from ..xeval import Interp, XObj, XRaise, EnumVal
+    from ..femchain import XFe, fe_hook_full
+
+    repo = ctx.repo
+    ci = repo.cls(BEH)
+    fR = repo.lookup_method(ci, ci.mangle("__Residual"))
+    fJ = repo.lookup_method(ci, ci.mangle("__Jacobian"))
+    r = ctx.rule(rid, "local Jacobian: every block of __Jacobian is the derivative of the corresponding rows of __Residual with respect to the unknowns (J) and to the strain (D), on a material with plastic strain, isotropic and kinematic hardening and a Maxwell branch together, and on each mechanism alone", min_instances=3)
+
+    class Slots:
+        _xeval_open = True
+
+        def __init__(self, table):
+            self.table = table
+
+        def _key(self, k):
+            k = k.name if isinstance(k, EnumVal) else str(k)
+            return k.split(".")[-1]
+
+        def __getitem__(self, k):
+            return self.table[self._key(k)]
+
+        def get(self, k, default=None):
+            return self.table.get(self._key(k), default)
+
+        def __contains__(self, k):
+            return self._key(k) in self.table
+
+    lam, mu = Q(3), Q(2)
+    Cm = [[(lam if i < 3 and j < 3 else Q(0)) + (2 * mu if i == j else Q(0)) for j in range(6)] for i in range(6)]
+    Pm = [[Q(0)] * 6 for _ in range(6)]  # a symmetric 'quadratic surface' matrix (deviatoric-like, not proportional to C)
+    for i in range(3):
+        for j in range(3):
+            Pm[i][j] = Q(2, 3) if i == j else Q(-1, 3)
+    for i in range(3, 6):
+        Pm[i][i] = Q(1)
+    H, kmod, rec, g, tau, dt, sy = (Poly.var(n) for n in ("H", "k", "c", "g", "tau", "dt", "sy"))
+
+    def matvec(M, v):
+        return [sum((M[i][j] * v[j] for j in range(6) if M[i][j] != 0), Poly()) for i in range(6)]
+
+    def fe_vec(v):
+        return XFe((1, 1, len(v)), list(v))
+
+    yield_ns = SimpleNamespace(
+        N=lambda xi, R: fe_vec(matvec(Pm, [Poly.of(x) for x in XArray.from_nested(xi).data])),
+        dNdSig=lambda xi: XFe((1, 1, 6, 6), [Poly.const(Pm[i][j]) for i in range(6) for j in range(6)]),
+        f=lambda xi, R: XFe((1, 1), [sum((Poly.of(a) * b for a, b in zip(XArray.from_nested(xi).data, matvec(Pm, [Poly.of(x) for x in XArray.from_nested(xi).data]))), Poly()) * Q(1, 2) - Poly.of(XArray.from_nested(R).data[0]) - sy]),
+        scale=1, P=None)
+    hard = SimpleNamespace(R=lambda p: XFe((1, 1), [H * Poly.of(XArray.from_nested(p).data[0])]), dR=lambda p: XFe((1, 1), [H]))
+
+    def config(kin, br):
+        table, n = {"eps_p": slice(0, 6), "p": slice(6, 7)}, 7
+        if kin:
+            table["alpha0"] = slice(n, n + 6)
+            n += 6
+        if br:
+            table["eps_v0"] = slice(n, n + 6)
+            n += 6
+        return table, n
+
+    for label, kin, br in (("plasticity + kinematic hardening + Maxwell branch", True, True), ("plasticity + kinematic hardening", True, False), ("plasticity + Maxwell branch", False, True)):
+        r.instance(fn=fJ.qualname)
+        table, nz = config(kin, br)
+        nu = nz + 1
+        eps = [Poly.var(f"e{i}") for i in range(6)]
+        zold = [Poly.var(f"z{i}") for i in range(nz)]
+        u = [Poly.var(f"u{i}") for i in range(nu)]
+        comp = SimpleNamespace(modulus=kmod, recall=rec, X=lambda a: XFe((1, 1, 6), [kmod * Poly.of(x) for x in XArray.from_nested(a).data]))
+        branch = SimpleNamespace(g=g, tau=tau)
+        CX = XFe((1, 1, 6, 6), [Poly.const(Cm[i][j]) for i in range(6) for j in range(6)])
+        obj = XObj(ci, {ci.mangle("__layout"): SimpleNamespace(slots=Slots(table), n=nz), ci.mangle("__yield"): yield_ns, ci.mangle("__hardening"): hard,
+                        ci.mangle("__kinematic"): (comp,) if kin else (), ci.mangle("__branches"): (branch,) if br else (), ci.mangle("__rate"): None,
+                        "C": XArray((6, 6), [Cm[i][j] for i in range(6) for j in range(6)]), "_C_e_pg": lambda Ne, nPg: CX})
+        I = Interp(repo, max_steps=20_000_000)
+        I.call_hook = fe_hook_full
+        try:
+            res = I.call_function(fR, [fe_vec(eps), fe_vec(u), fe_vec(zold), CX, dt], self_obj=obj)
+            rvec = [Rat.of(x) for x in XArray.from_nested(res[0]).data]
+            J, D = I.call_function(fJ, [fe_vec(u), fe_vec(zold), res[2], res[3], CX, dt], self_obj=obj)
+            J, D = XArray.from_nested(J), XArray.from_nested(D)
+        except XRaise as e:
+            r.fail(fJ.qualname, f"jacobian:{label}", fJ.file, fJ.lineno, "Behavior.__Jacobian", f"{label}: raises {e}")
+            continue
+        names = {}
+        for nm, sl in table.items():
+            for kk in range(sl.start, sl.stop):
+                names[kk] = f"{nm}[{kk - sl.start}]"
+        names[nz] = "dGamma"
+        def ddiff(x, var):
+            # d(n / d): the denominators (tau) do not depend on the unknowns nor on the strain
+            if var in x.d.vars():
+                raise AnalysisError(f"{rid}: a residual denominator depends on {var}")
+            return Rat(x.n.diff(var), x.d)
+
+        bad = None
+        if len(rvec) != nu or J.shape != (1, 1, nu, nu) or D.shape != (1, 1, nu, 6):
+            bad = f"shapes: residual {len(rvec)}, J {J.shape}, D {D.shape} for {nu} unknowns"
+        else:
+            # the rate term divides by tau: clear it (tau * r is polynomial) by differentiating tau-multiplied rows when needed
+            for a in range(nu):
+                for b in range(nu):
+                    want = ddiff(rvec[a], f"u{b}")
+                    got = J[0, 0, a, b]
+                    if bad is None and not is_zero(Rat.of(got) - Rat.of(want)):
+                        bad = f"J[{names[a]}, {names[b]}] is {got!r}, the derivative of that residual row with respect to that unknown is {want!r}"
+                for c in range(6):
+                    want = ddiff(rvec[a], f"e{c}")
+                    got = D[0, 0, a, c]
+                    if bad is None and not is_zero(Rat.of(got) - Rat.of(want)):
+                        bad = f"D[{names[a]}, eps[{c}]] is {got!r}, the derivative of that residual row with respect to that strain component is {want!r}"
+        if bad:
+            r.fail(fJ.qualname, f"jacobian:{label}", fJ.file, fJ.lineno, "Behavior.__Jacobian", f"{label}: {bad}: the Newton matrix is not the derivative of the residual it is solved with - the returned algorithmic tangent is not the derivative of the returned stress")
+        else:
+            r.ok(f"{label}: J == dr/du ({nu} x {nu}) and D == dr/deps ({nu} x 6) as rational identities")
